@@ -25,7 +25,7 @@
 (* (PTR alias, SRV host; "" otherwise) as spelled and lower-cased, subtype    *)
 (* label of a subtype PTR owner ("" otherwise), TTL in seconds, flush bit.    *)
 (***************************************************************************)
-EXTENDS Naturals, Sequences, FiniteSets
+EXTENDS Naturals, Sequences, FiniteSets, Life
 CONSTANTS EagerKeys,     \* TRUE: the map entry of a name is created before the "not for us" test (the pinned behaviour)
           SplitByFlush,  \* TRUE: copies that differ in the cache-flush bit are different records (the pinned behaviour)
           KeepSubs       \* TRUE: the instance -> subtype table is never cleaned (the pinned behaviour)
@@ -36,7 +36,6 @@ KeyOf(r)  == IF MapOf(r.ty) = "addr" THEN r.nl ELSE r.n
 (* (the owner name of an address record is compared without regard to letter case, the others as spelled) *)
 CId(r, idx) == <<MapOf(r.ty), KeyOf(r), r.ty, IF MapOf(r.ty) = "addr" THEN r.nl ELSE r.n, r.rk, IF SplitByFlush THEN r.fl ELSE FALSE,
                  IF MapOf(r.ty) = "addr" THEN idx ELSE 0>>
-Pct(cr, ttl, p) == cr + ttl * p * 10
 Ttl(r) == IF r.ttl = 0 THEN 1 ELSE r.ttl          \* the decoder turns the TTL 0 of a response record into 1
 
 Empty == [recs |-> <<>>, keys |-> {}, subs |-> <<>>, held |-> {}, lazy |-> {}]      \* held: the <<map, key>> under which a record was ever stored; lazy: addr entries emptied by DropAddrs, left to the next eviction
@@ -61,14 +60,14 @@ Add(c, r, idx, t, forus) ==
      THEN [none EXCEPT !.c.keys = IF EagerKeys THEN @ \cup {<<m, k>>} ELSE @]
      ELSE
        LET hit(x) == /\ r.fl /\ x \in bucket /\ x[3] = r.ty
-                     /\ t > c.recs[x].created + 1000 /\ c.recs[x].expires > t + 1000
+                     /\ FlushHits(c.recs[x], t)
                      /\ (m = "addr" => x[7] = idx)
-           recs1 == [x \in Ids(c) |-> IF hit(x) THEN [c.recs[x] EXCEPT !.expires = t + 1000] ELSE c.recs[x]]
+           recs1 == [x \in Ids(c) |-> IF hit(x) THEN Flushed(c.recs[x], t) ELSE c.recs[x]]
            old == id \in Ids(c)
+           b == Born(ttl, t)
            e2 == IF old
-                 THEN [recs1[id] EXCEPT !.ttl = ttl, !.created = t, !.expires = Pct(t, ttl, 100),
-                                        !.refresh = IF ttl > 1 THEN Pct(t, ttl, 80) ELSE Pct(t, ttl, 100)]
-                 ELSE [ttl |-> ttl, created |-> t, expires |-> Pct(t, ttl, 100), refresh |-> Pct(t, ttl, 80),
+                 THEN Restart(recs1[id], ttl, t)
+                 ELSE [ttl |-> b.ttl, created |-> b.created, expires |-> b.expires, refresh |-> b.refresh,
                        tg |-> r.tg, tgl |-> r.tgl, src |-> idx, fl |-> r.fl, sub |-> r.sub, name |-> r.n]
        IN [c |-> [recs |-> [x \in Ids(c) \cup {id} |-> IF x = id THEN e2 ELSE recs1[x]],
                   keys |-> c.keys \cup {<<m, k>>}, subs |-> subs1, held |-> c.held \cup {<<m, k>>}, lazy |-> c.lazy],
@@ -97,19 +96,14 @@ Evict(c, t) ==
 Verify(c, inst, dl) ==
   LET srvs == Under(c, "srv", inst)
       hosts == {c.recs[x].tg : x \in srvs}       \* looked up as spelled: the addr map is keyed in lower case
-      cut(x) == dl > 0 /\ (x \in srvs \/ (x[1] = "addr" /\ x[2] \in hosts)) /\ dl < c.recs[x].expires
+      cut(x) == dl > 0 /\ (x \in srvs \/ (x[1] = "addr" /\ x[2] \in hosts)) /\ CutHits(c.recs[x], dl)
   IN IF <<"srv", inst>> \notin c.keys THEN [c |-> c, nq |-> 0, hosts |-> {}]
-     ELSE [c |-> [c EXCEPT !.recs = [x \in Ids(c) |-> IF cut(x) THEN [c.recs[x] EXCEPT !.expires = dl] ELSE c.recs[x]]],
+     ELSE [c |-> [c EXCEPT !.recs = [x \in Ids(c) |-> IF cut(x) THEN CutTo(c.recs[x], dl) ELSE c.recs[x]]],
            nq |-> 1 + 2 * Cardinality(srvs), hosts |-> hosts]
 
 (* ------------------------------- refresh --------------------------------- *)
-Due(e, t) == t < e.expires /\ t >= e.refresh
-NextMark(e) == IF e.refresh = Pct(e.created, e.ttl, 80) THEN Pct(e.created, e.ttl, 85)
-               ELSE IF e.refresh = Pct(e.created, e.ttl, 85) THEN Pct(e.created, e.ttl, 90)
-               ELSE IF e.refresh = Pct(e.created, e.ttl, 90) THEN Pct(e.created, e.ttl, 95)
-               ELSE Pct(e.created, e.ttl, 100)
 (* refresh_maybe on every record of S: the due ones move to their next mark   *)
-Bump(c, S, t) == [c EXCEPT !.recs = [x \in Ids(c) |-> IF x \in S /\ Due(c.recs[x], t) THEN [c.recs[x] EXCEPT !.refresh = NextMark(c.recs[x])] ELSE c.recs[x]]]
+Bump(c, S, t) == [c EXCEPT !.recs = [x \in Ids(c) |-> IF x \in S /\ Due(c.recs[x], t) THEN Bumped(c.recs[x]) ELSE c.recs[x]]]
 Marks(c, S, t) == {NextMark(c.recs[x]) : x \in {y \in S : Due(c.recs[y], t)}}
 
 LiveInsts(c, ty, t) == {c.recs[p].tg : p \in {q \in Under(c, "ptr", ty) : ~Expired(c, q, t)}}
@@ -118,9 +112,9 @@ RefreshPtr(c, ty, t) ==
   LET S == Under(c, "ptr", ty) IN [c |-> Bump(c, S, t), timers |-> Marks(c, S, t), due |-> {}]
 (* refresh_maybe k times in a row (the look-up visits an instance once per unexpired PTR that points to it) *)
 RECURSIVE BumpN(_, _, _)
-BumpN(e, t, k) == IF k = 0 \/ ~Due(e, t) THEN e ELSE BumpN([e EXCEPT !.refresh = NextMark(e)], t, k - 1)
+BumpN(e, t, k) == IF k = 0 \/ ~Due(e, t) THEN e ELSE BumpN(Bumped(e), t, k - 1)
 RECURSIVE MarksN(_, _, _)
-MarksN(e, t, k) == IF k = 0 \/ ~Due(e, t) THEN {} ELSE {NextMark(e)} \cup MarksN([e EXCEPT !.refresh = NextMark(e)], t, k - 1)
+MarksN(e, t, k) == IF k = 0 \/ ~Due(e, t) THEN {} ELSE {NextMark(e)} \cup MarksN(Bumped(e), t, k - 1)
 RefreshSrvTxt(c, ty, t) ==
   LET insts == LiveInsts(c, ty, t)
       times(i) == Cardinality({p \in Under(c, "ptr", ty) : ~Expired(c, p, t) /\ c.recs[p].tg = i})
